@@ -3,7 +3,7 @@
 of the properties it names against the copy (VERIF_REPO override). A mutant must be reported as a
 VIOLATION by at least one of its properties; a benign patch must stay silent on all checks."""
 import os, subprocess, sys, shutil, tempfile, glob, json, re, time
-VERIF = '/verif'
+VERIF = os.path.dirname(os.path.dirname(os.path.abspath(__file__)))
 def run_one(patch, benign):
     name = os.path.basename(patch)[:-6]
     head = open(patch).read().split('\n')
